@@ -15,6 +15,21 @@ from distance3d import gjk, mpr, epa as EPA  # noqa: F401
 
 MAX_FLOAT = float(np.finfo(float).max)
 
+# live rows of GJK's work array when it stopped (return value of _distance_loop), observed by wrapping the
+# module attribute in THIS process (finding F2: epa() is handed all four rows regardless)
+from distance3d.gjk import _gjk_jolt as _J  # noqa: E402
+_GJK_INFO = {}
+_orig_distance_loop = _J._distance_loop
+
+
+def _distance_loop_w(*a):
+    r = _orig_distance_loop(*a)
+    _GJK_INFO["n_points"] = None if r[1] is None else int(r[1])
+    return r
+
+
+_J._distance_loop = _distance_loop_w
+
 
 def scan(x, out):
     """collect non-finite numbers of a nested result into out (list of str)"""
@@ -105,7 +120,7 @@ def run_op(op, s1, s2):
             scan(r, nonfinite)
         elif name == "epa_full":
             d, a, b, simplex = gjk.gjk_distance_jolt(c1, c2)
-            out.update(d=float(d), n_gjk=cnt.n)
+            out.update(d=float(d), n_gjk=cnt.n, n_points=_GJK_INFO.get("n_points"))
             if d < 1e-12 and simplex is not None:
                 mtv, faces, success = EPA.epa(simplex, c1, c2, **kw)
                 out.update(mtv=W.arr(mtv), success=bool(success))
